@@ -150,6 +150,46 @@ Definition size66_inst_agrees (rows : list row) (e : inst_entry) : bool :=
   let ok r := word_row_agrees_g true (ie_flags e) (ie_main e) r || ((0 <? ie_alt e) && word_row_agrees_g true (ie_flags e) (ie_alt e) r) in
   existsb (fun r => (r_name r =? ie_name e) && ok r) rows && forallb (fun r => negb (r_name r =? ie_name e) || ok r) rows.
 
+(* classes whose handler derives the opcode by the operand size (Opcode::add_arith_by_size: + 1 for a non-byte size, 66 for 16 bits;
+   ret: + 1 for the form without immediate): forward and converse, where a word w also stands for w + 1 and for the 66-prefixed rows *)
+Definition sizebit_inst_agrees (rows : list row) (e : inst_entry) : bool :=
+  let ok1 w r := word_row_agrees_g true (ie_flags e) w r || word_row_agrees_g true (ie_flags e) (w + 1) r in
+  let ok r := ok1 (ie_main e) r || ((0 <? ie_alt e) && ok1 (ie_alt e) r) in
+  existsb (fun r => (r_name r =? ie_name e) && ok r) rows && forallb (fun r => negb (r_name r =? ie_name e) || ok r) rows.
+
+(* X86Arith (adc add and cmp or sbb sub xor) and X86Rot (rcl rcr rol ror sal sar shl shr): the handler derives, from the one stored
+   word with opcode o and /digit g,
+     arith: o, o+1 (size), o+2, o+3 (direction), o+4, o+5 (accumulator, written (g << 3) | 4 + size in the handler: needs o = 8 g),
+            and the immediate group 80 / 81 / 83 with /g   (the literal 0x80 of the handler, + 1, + 3)
+     rot:   o, o+1 with /g (by 1), o+2, o+3 (by cl), o - 0x10, o - 0x10 + 1 (by imm8)
+   forward: the stored word itself is a database form; converse: every legacy database form of the mnemonic is one of these *)
+Definition arith_row_ok (w : Z) (r : row) : bool :=
+  let o := w_opc w in let g := w_modo w in
+  (r_kind r =? 0) && (r_map r =? 0) && (o =? 8 * g) &&
+  (((r_digit r <? 0) && (o <=? r_opc r) && (r_opc r <=? o + 5)) ||
+   ((r_digit r =? g) && ((r_opc r =? 128) || (r_opc r =? 129) || (r_opc r =? 131)))).
+Definition rot_row_ok (w : Z) (r : row) : bool :=
+  let o := w_opc w in let g := w_modo w in
+  (r_kind r =? 0) && (r_map r =? 0) && (r_digit r =? g) &&
+  (((o <=? r_opc r) && (r_opc r <=? o + 3)) || (r_opc r =? o - 16) || (r_opc r =? o - 15)).
+Definition derived_inst_agrees (ok : Z -> row -> bool) (rows : list row) (e : inst_entry) : bool :=
+  existsb (fun r => (r_name r =? ie_name e) && word_row_agrees (ie_flags e) (ie_main e) r) rows &&
+  forallb (fun r => negb (r_name r =? ie_name e) || ok (ie_main e) r) rows.
+
+(* further classes (legacy, and the VEX/EVEX vmovd/vmovq/vpextrw classes) whose handler hard-codes some opcodes next to the stored words (call, jmp, imul, nop, push, pop, test, xchg,
+   movq): every literal of the handler block is the opcode of a database form of an instruction of the class, and EVERY database form
+   of every instruction of the class is a stored word (w, w + 1, 66-prefixed: as sizebit_inst_agrees) or has a literal l of the block
+   as opcode: l, l + 1 (size bit) or l - 2 (imul's 6B -> 69) *)
+Definition class_lits_agree (tbl : list (inst_entry * list row)) (c : Z) (lits : list (Z * Z)) : bool :=
+  let ok1 e w r := word_row_agrees_g true (ie_flags e) w r || word_row_agrees_g true (ie_flags e) (w + 1) r in
+  let okw e r := ok1 e (ie_main e) r || ((0 <? ie_alt e) && ok1 e (ie_alt e) r) in
+  let okl r := existsb (fun l => (r_map r =? fst l) &&
+                                 ((r_opc r =? snd l) || (r_opc r =? snd l + 1) || (r_opc r =? snd l - 2))) lits in
+  existsb (fun p => ie_enc (fst p) =? c) tbl &&
+  forallb (fun p => negb (ie_enc (fst p) =? c) || forallb (fun r => negb (r_name r =? ie_name (fst p)) || okw (fst p) r || okl r) (snd p)) tbl &&
+  forallb (fun l => existsb (fun p => (ie_enc (fst p) =? c) &&
+                                      existsb (fun r => (r_name r =? ie_name (fst p)) && (r_map r =? fst l) && (r_opc r =? snd l)) (snd p)) tbl) lits.
+
 (* x87 (FpuOp class): the word holds both opcode bytes: escape byte in bits 10..17, the fixed ModRM byte in bits 0..7 *)
 Definition fpu_op_agrees (rows : list row) (e : inst_entry) : bool :=
   let w := ie_main e in
